@@ -22,7 +22,10 @@ tests_line = [l for l in out_t.splitlines() if "passed" in l or "failed" in l][-
 rc_d1, out_d1 = sh("/venv/bin/python %s/demo.py" % src, wt)
 sh("git checkout -- .", wt)
 rc_d0, out_d0 = sh("/venv/bin/python %s/demo.py" % src, wt)
-rc_c, out_c = sh("tools/seedtest.sh %s/patch.diff %s %s" % (src, pid, " ".join(extra)), "/verif")
+if os.environ.get("VERIF_SEED_IN_WT"):
+    rc_c, out_c = sh("tools/seedtest_wt.sh %s/patch.diff %s %s %s" % (src, pid, wt, " ".join(extra)), "/verif")
+else:
+    rc_c, out_c = sh("tools/seedtest.sh %s/patch.diff %s %s" % (src, pid, " ".join(extra)), "/verif")
 check_exit = [l for l in out_c.splitlines() if l.startswith("exit=")][-1:]
 viol = [l for l in out_c.splitlines() if l.startswith("VIOLATION")][:3]
 ok = rc_t == 0 and "143 passed" in " ".join(tests_line) and rc_d1 != 0 and rc_d0 == 0
